@@ -170,6 +170,11 @@ func GenOp(t *rapid.T, w *World, p *Profile) Op {
 	}
 	if vs := w.Vers[w.WorkingVersion()]; vs != nil && vs.Logged && len(vs.Writes) > 0 && !w.Dirty && w.Cur < w.Latest && w.Vers[w.Cur] != nil {
 		add("replay", true)
+		if p.W["replay"] > 0 {
+			// an older version is loaded and nothing has been written yet: a restarted node that replays its next block is
+			// the typical continuation (one write of its own would close the window)
+			cs = append(cs, cand{"replay", 5 * p.W["replay"]})
+		}
 	}
 	add("rollback", true)
 	add("reopen", true)
